@@ -432,3 +432,32 @@ pub fn record_stream(seed: u64, thorough: bool, path: &str) -> Value {
     out.write(path);
     json!({"streams": streams, "queries": values, "events": out.lines.len(), "sample": serde_json::from_str::<Value>(&out.lines[1]).unwrap()})
 }
+
+/// C08: loading library-written vectors with more than 2^20 items (where a loader may treat the header differently):
+/// the hooked raw-slice site in Vec<V>::load reports the bytes filled against the bytes allocated.
+pub fn replay_bigload(tally: &mut Tally) {
+    tally.cases += 1;
+    let n = (1usize << 20) + 100;
+    let v: Vec<u64> = (0..n as u64).map(|i| i.wrapping_mul(0x9E37_79B9_7F4A_7C15)).collect();
+    let pairs: Vec<(u64, u64)> = (0..(n / 2 + 7) as u64).map(|i| (i, !i)).collect();
+    let raw = { let mut r = RawVector::with_len(64 * n + 17, false); for i in (0..r.len()).step_by(4099) { r.set_bit(i, true); } r };
+    let r = guarded(|| {
+        let mut out: Vec<(&'static str, Value, Value)> = Vec::new();
+        macro_rules! rt { ($x:expr, $ty:ty, $what:expr) => {{
+            let mut buf: Vec<u8> = Vec::new();
+            $x.serialize(&mut buf).unwrap();
+            let mut cur = std::io::Cursor::new(&buf);
+            match <$ty>::load(&mut cur) { Ok(y) => out.push(($what, json!([true, buf.len()]), json!([y == $x, cur.position()]))), Err(e) => out.push(($what, json!("ok"), json!(e.to_string()))) }
+        }} }
+        rt!(v, Vec<u64>, "Vec<u64> of 2^20 + 100 items: load == original, all bytes consumed");
+        rt!(pairs, Vec<(u64, u64)>, "Vec<(u64, u64)> of 2^19 + 57 items");
+        rt!(raw, RawVector, "RawVector of 2^26 + 6417 bits");
+        let bv = BitVector::from(raw.clone());
+        rt!(bv, BitVector, "BitVector of 2^26 + 6417 bits");
+        out
+    });
+    match r {
+        Ok(list) => for (j, (what, exp, got)) in list.iter().enumerate() { tally.check(hkey(&[77, j as u64]), true, &|| json!({"kind": "bigload", "what": what}), exp, got); },
+        Err(msg) => { tally.check(77, true, &|| json!({"kind": "bigload", "what": "panic"}), &json!("no panic"), &json!(format!("PANIC: {}", msg))); },
+    }
+}
